@@ -453,6 +453,26 @@ def run_coneqp_family(ctx):
         if pr is None:
             ctx.count("generator.none"); return
         d = pr.dims
+        if not noineq and rng.random() < 0.12 and getattr(pr, "pl", None) and "x" in pr.pl:
+            # optimal value ~ 0 (pcost >= 0 >= dcost near the end, 'relative gap' None): the problem is translated to
+            # u = x - x*, x* from a preliminary solve; every verdict on the new instance is recomputed from its own data
+            try:
+                a0 = sr.cvx_args(pr, rng)
+                s0 = solvers.coneqp(a0["P"], a0["q"], a0["G"], a0["h"], a0["dims"], a0["A"], a0["b"], options={"show_progress": False})
+            except Exception:
+                s0 = None
+            if s0 is not None and s0["status"] == "optimal":
+                t_ = np.array(list(s0["x"]), dtype=float)
+                pz = gp.Prob(c=pr.P @ t_ + pr.q, G=pr.G, h=pr.h - pr.G @ t_, A=pr.A, b=pr.b - pr.A @ t_, dims=d, kind=pr.kind)
+                pz.P = pr.P; pz.q = pr.P @ t_ + pr.q
+                pz.rankP = getattr(pr, "rankP", None)
+                pz.pl = dict(pr.pl); pz.pl["x"] = pr.pl["x"] - t_
+                if "p" in pz.pl:
+                    off_ = float(0.5 * t_ @ pr.P @ t_ + pr.q @ t_)
+                    pz.pl["p"] = pz.pl["p"] - off_
+                    if "d" in pz.pl: pz.pl["d"] = pz.pl["d"] - off_
+                pr = pz
+                ctx.count("qp.zero-optimum")
         sparse = rng.random() < 0.4
         junk = rng.random() < 0.4
         opts, oclass = gen_options(rng, d)
